@@ -24,6 +24,7 @@ type exec struct {
 	msg     string
 	class   string
 	res     verifsched.Result
+	trace   []string
 }
 
 type out struct {
@@ -41,6 +42,8 @@ type out struct {
 	Violation   string         `json:"violation,omitempty"`
 	Schedule    []int          `json:"schedule,omitempty"`
 	Children    [][]int        `json:"children,omitempty"`
+	Found       []int          `json:"found_schedule,omitempty"`
+	Trace       []string       `json:"trace,omitempty"` // replay only: external operations and lookup results in order
 	Labels      []string       `json:"schedule_labels,omitempty"`
 	WallS       float64        `json:"wall_s"`
 }
@@ -83,6 +86,7 @@ func runOnce(prefix []int) *exec {
 		wait := func() {
 			verifsched.Block(func() bool { return pending == 0 }, "driver wait")
 		}
+		scen.CurrentThread = verifsched.CurrentRoot
 		env, results = scen.Exec(sc, spawn, wait, verifsched.Point)
 	}, chooser, syncGran, 20000)
 	switch {
@@ -94,6 +98,17 @@ func runOnce(prefix []int) *exec {
 		x.msg = "livelock guard: more than 20000 scheduling points"
 	default:
 		x.msg, x.class = scen.Check(sc, env, results)
+	}
+	if env != nil {
+		for _, op := range env.Ops {
+			x.trace = append(x.trace, fmt.Sprintf("c%d %s %s", op.Client, op.Kind, op.Arg))
+		}
+		for _, r := range results {
+			x.trace = append(x.trace, fmt.Sprintf("result c%d %s@%s: %q err=%v", r.Lookup.Client, r.Lookup.Path, r.Lookup.Vers, r.Lines, r.Err))
+		}
+		for _, sh := range env.Served {
+			x.trace = append(x.trace, fmt.Sprintf("served c%d %s head size %d %s", sh.Client, sh.Path, sh.Tree.N, sh.Tree.Hash.String()[:8]))
+		}
 	}
 	return x
 }
@@ -142,8 +157,13 @@ func record(x *exec) bool {
 		return false
 	}
 	o.Outcomes[x.class]++
+	if findClass != "" && strings.Contains(x.class, findClass) && o.Found == nil {
+		o.Found = append([]int{}, x.choices...)
+	}
 	return true
 }
+
+var findClass string
 
 var planOnly bool
 
@@ -195,6 +215,7 @@ func main() {
 	flag.Int64Var(&maxExec, "maxexec", 0, "execution cap")
 	prefixFlag := flag.String("prefix", "", "comma separated choice prefix: explore only the subtree below it")
 	flag.BoolVar(&deviationMode, "deviations", false, "bound every departure from the default schedule (delay bounding), not only preemptions")
+	flag.StringVar(&findClass, "find", "", "debugging aid: report the first schedule whose outcome class contains this text")
 	flag.BoolVar(&planOnly, "plan", false, "run the prefix execution only and list its child prefixes")
 	flag.Parse()
 	var ok bool
@@ -218,6 +239,13 @@ func main() {
 		o.Executions = 1
 		o.Violation = x.msg
 		o.Schedule = x.choices
+		if x.class != "" {
+			o.Outcomes[x.class]++
+		}
+		for _, p := range x.points {
+			o.Labels = append(o.Labels, p.Label)
+		}
+		o.Trace = x.trace
 	} else {
 		var pre []int
 		if *prefixFlag != "" {
